@@ -39,6 +39,10 @@ def replay(ctx, path):
     r = json.load(open(path))
     env = R.prepare(ctx)
     c = R.case_from_replay(r["case"])
+    c.id = 1
     R.execute(ctx, env, [c])
     bad = R.judge(ctx, env, [c], verbose=True)
+    for key, what, _ in ctx.violations:
+        print("FAILS", key, "-", what[:300])
+    print("replay verdict:", c.model.get("gv") or c.model.get("mv"), "expected by the specification:", c.model.get("repval") or c.model.get("rep"))
     return 1 if bad else 0
